@@ -150,6 +150,9 @@ func repoFrame(stack string) string {
 // so the allocation figures of later deliveries in this process would be polluted and are not taken any more.
 var strayGoroutine bool
 
+// slowDeliveries counts deliveries whose verdict came after the first 45 s of the watchdog (starvation, not a hang).
+var slowDeliveries int
+
 // guarded runs f with panic capture, a hang watchdog and (optionally) allocation accounting.
 func guarded(measure bool, f func()) verdict {
 	var v verdict
@@ -172,9 +175,17 @@ func guarded(measure bool, f func()) verdict {
 	select {
 	case <-done:
 	case <-time.After(45 * time.Second):
-		v.hang = true
-		strayGoroutine = true
-		return v
+		// no verdict yet. On an oversubscribed machine a delivery can be starved for that long (seen once: load
+		// average 70 on 16 cores, the case replayed in milliseconds), and a hang proper never ends: wait on, and
+		// call it a hang only if there is still no verdict after 5 minutes. A late verdict is counted, not reported.
+		select {
+		case <-done:
+			slowDeliveries++
+		case <-time.After(255 * time.Second):
+			v.hang = true
+			strayGoroutine = true
+			return v
+		}
 	}
 	if measure && !strayGoroutine {
 		var after runtime.MemStats
@@ -234,7 +245,7 @@ func (s *suite) judge(v verdict, code, family, name string, frame []byte, cls st
 		s.out.Outcome(code + " PANIC " + v.panicKey)
 		s.nd = nil // a panic may have left locks held
 	case v.hang:
-		s.out.Violation("hang:"+code+":"+family, "no verdict within 45 s | "+what, map[string]interface{}{"state": s.st.name, "code": code, "mutation": name, "frame_hex": hexs(frame)})
+		s.out.Violation("hang:"+code+":"+family, "no verdict within 300 s | "+what, map[string]interface{}{"state": s.st.name, "code": code, "mutation": name, "frame_hex": hexs(frame)})
 		s.out.Outcome(code + " HANG")
 		s.nd = nil
 	case v.alloc > allocSlack+64*uint64(len(frame)):
@@ -389,6 +400,7 @@ func main() {
 			runFrames(states[1], out)
 		}
 		out.Count("cases_enumerated", 0)
+		out.Count("slow_deliveries_over_45s", slowDeliveries)
 	})
 	keys := []string{}
 	for k := range protocol.VerifCodes {
@@ -401,7 +413,7 @@ func main() {
 	run.Set("transitions", run.Get("deliveries")+run.Get("tx_validations"))
 	run.Set("traces_validated_against_impl", run.Get("deliveries")+run.Get("tx_validations"))
 	run.Set("distinct_nontrivial", run.Get("deliveries")+run.Get("tx_objects"))
-	run.Assume = append(run.Assume, "hang = no verdict within 45 s of wall clock for one delivery (deliveries take milliseconds)",
+	run.Assume = append(run.Assume, "hang = no verdict within 300 s of wall clock for one delivery (deliveries take milliseconds; a verdict that comes after 45 s is counted as slow_deliveries_over_45s and not reported - the first version of the watchdog, 45 s flat, raised one false alarm on an oversubscribed machine)",
 		"allocation rule: more than 24 MiB + 64 x frame length allocated during one delivery (runtime.MemStats.TotalAlloc delta, one delivery at a time per process)",
 		"async hand-offs of the node (AsyncTxPool, flip queue, block cache consumers, downloader) are replaced by direct calls of the consumer on the same goroutine so that a panic is attributed to the message")
 	run.Finish("exploration", "every message code x honest corpus (5 chain states incl. three ceremony periods) x {all truncations, 4 substitutions per byte position (first 600 + last 100 positions for long messages), all structural protobuf mutations to depth 3 (delete, duplicate, empty, one byte, half, -1, doubled, +1, 5 inflated length claims, wire-type confusion, 12 extreme varints, x3000 repetition, unknown fields), every payload under every other code} through the real handle() and the later consumers; transaction space: type x recipient x amount x fee x tips x payload x signer in 3 validation modes + processTxs; transport frames")
